@@ -238,7 +238,9 @@ def view_flags(cmd, out):
     if w in ("start", "stop", "flags", "nokid"):
         return out
     if w == "probe":
-        return kv(out, ["tr", "keep", "kids"])
+        # an untracked result keeps no reference to its operands; how many operands a tracked result
+        # stores is not something the property speaks about
+        return kv(out, ["tr", "keep", "kids"]) if "tr=0" in out else kv(out, ["tr", "keep"])
     if w == "probekid":
         return out if out == "nokid" else kv(out, ["tr", "keep"])
     if w == "own":
@@ -280,7 +282,7 @@ def view_rc(cmd, out):
     if out in ("PANIC", "-", "BADCMD"):
         return out if w == "own" else None
     if w == "probe":
-        return kv(out, ["rc"])
+        return kv(out, ["rc", "cnt", "pend"])
     if w == "own":
         return "own"
     return None
@@ -357,8 +359,10 @@ def compare_case(cmds, impl, model, mode, tol, bits=50, view="full"):
             break
         vi, vm = vf(cmds[i], il), vf(cmds[i], ml)
         vs = vf(cmds[i], spec) if spec is not None else None
-        if view == "rc" and vm is not None and vm.startswith("rc=") and vm != "rc=1":
-            vi = vm = vs = None
+        if view == "rc" and vm is not None and vm.startswith("rc=") and not vm.startswith("rc=1 "):
+            # not a point where the model claims sole ownership: only "no counter, no pending value" counts
+            strip = lambda v: None if v is None else " ".join(v.split()[1:])
+            vi, vm, vs = strip(vi), strip(vm), strip(vs)
         if vi is not None and vm is not None:
             im = lines_agree(vi, vm, mode, tol)
             if mode == "exact" or not im:
